@@ -26,7 +26,7 @@ def field_to_string(name, type_, value):
     elif issubclass(type_, (struct, union)):
         return "%s {\n%s}\n" % (name, indent(str(value)))
     elif issubclass(type_, bytes):
-        return "%s: %s\n" % (name, repr_bytes(value))
+        return "%s: %s\n" % (name, repr_bytes(value or b""))
     elif issubclass(type_, enum):
         return "%s: %s\n" % (name, type_._int_to_name[value])
     else:
@@ -220,7 +220,8 @@ def bytes_(**kwargs):
 
         @staticmethod
         def _encode(value):
-            return value.ljust(size, b'\x00')
+            """ the default of a never assigned field is the empty (py2 heritage) str """
+            return (value or b"").ljust(size, b'\x00')
 
         @staticmethod
         def _decode(data, pos, len_hint):
